@@ -34,8 +34,12 @@ def build_copula_process(spec):
     cop = spec["copula"]
     copula = create_independent_copula() if cop["kind"] == "independent" else create_clayton_copula(theta=cop["theta"], eta=cop["eta"])
     lcm = create_levy_copula_model(models, copula)
-    grid = CTMCUniformGrid.create_from_fixed_nb_of_points(h=spec["grid"]["h"], nb_of_points=spec["grid"]["n"],
-                                                          dimension=len(models))
+    if spec["grid"].get("kind") == "trunc":
+        # uniform grid truncated at a (crude) tail probability: asymmetric axes, possibly a single point on one side
+        grid = CTMCUniformGrid(h=spec["grid"]["h"], model=lcm, truncation_probability=spec["grid"]["tp"])
+    else:
+        grid = CTMCUniformGrid.create_from_fixed_nb_of_points(h=spec["grid"]["h"], nb_of_points=spec["grid"]["n"],
+                                                              dimension=len(models))
     return MarkovChainLevyCopula(lcm, grid, SamplingMethod[ND_METHODS[spec["method"]]])
 
 
@@ -44,7 +48,8 @@ def generate_process(r):
     return {"kind": "copula", "margins": [r.choice(list(MARGINS)) for _ in range(d)],
             "copula": r.choice([{"kind": "clayton", "theta": r.choice([0.7, 2.0, 0.3]), "eta": r.choice([0.3, 0.8, 0.0, 1.0])},
                                 {"kind": "clayton", "theta": 0.7, "eta": 0.3}, {"kind": "independent"}]),
-            "grid": {"kind": "fixed", "h": r.choice([0.1, 0.05]), "n": r.choice([4, 4, 6]) if d == 2 else 4},
+            "grid": ({"kind": "trunc", "h": r.choice([0.1, 0.05]), "tp": r.choice([0.9, 0.9, 0.99])} if d == 2 and r.random() < 0.4
+                     else {"kind": "fixed", "h": r.choice([0.1, 0.05]), "n": r.choice([4, 4, 6]) if d == 2 else 4}),
             "method": r.choice(["adaptednd", "adaptednd", "inversion"])}
 
 
